@@ -13,6 +13,10 @@ const rule = "workloads of 0-6 handlers (plain/context-aware x sync/async x Once
 var collRec = vkit.NewCollector("C20", "TestRecording", rule)
 var collOTel = vkit.NewCollector("C20", "TestOTel", rule)
 
+var collStress = vkit.NewCollector("C20", "TestOTelStress", "free-running volume: 200-1500 publishes from each of 1-4 goroutines to 0-4 synchronous handlers that keep the publisher busy for a varying time and 1-2 asynchronous (optionally Sequential) handlers, drawn GOMAXPROCS, with the OpenTelemetry Observability on an SDK span recorder. Oracle after bus.Wait(): every started span ended exactly once (a leaked publish span is named), publish spans = publishes, handler spans = handler runs, handler spans are children of publish spans. Non-trivial = at least one synchronous handler.")
+
+func TestOTelStress(t *testing.T) { vkit.Check(t, collStress, GenStress, RunStress) }
+
 func TestMain(m *testing.M) { vkit.Main(m) }
 
 func TestRecording(t *testing.T) { vkit.Check(t, collRec, Gen, RunRecording) }
@@ -20,5 +24,5 @@ func TestOTel(t *testing.T)      { vkit.Check(t, collOTel, Gen, RunOTel) }
 
 func TestReplay(t *testing.T) {
 	r := vkit.NeedReplay(t)
-	_ = vkit.ReplayCase(t, r, collRec, RunRecording) || vkit.ReplayCase(t, r, collOTel, RunOTel)
+	_ = vkit.ReplayCase(t, r, collRec, RunRecording) || vkit.ReplayCase(t, r, collOTel, RunOTel) || vkit.ReplayCase(t, r, collStress, RunStress)
 }
